@@ -1,9 +1,11 @@
 From Coq Require Import Extraction ExtrOcamlBasic.
 From Common Require Import Bytes Drv Outcome.
 From C25 Require Import Secondary.
-From C24 Require Import Model.
+From C24 Require Import Model Manager.
 Extraction "model.ml" drv_b2n drv_n2b drv_z_of_n drv_n_of_z drv_nat_of_n drv_n_of_nat
   verify verify_prefix authorised_b claim_slot decode_predigest encode_predigest pd_idx pd_slot
   secondary_slot_author wrong_kind
   e_missing e_nopre e_noseal e_decode e_badidx e_over e_badslot e_badsec e_badsig e_other
-  e_equiv_err e_equivocated c_notour c_tech c_other.
+  e_equiv_err e_equivocated c_notour c_tech c_other
+  select_epoch verify_block block_authorised_b mstep ms_init
+  m_noparent m_epoch m_parent_epoch m_epoch_lower m_slotdur m_info s_epoch s_info s_badidx s_desc s_already.
